@@ -4,7 +4,7 @@
     mutex (lock obligations coq/obligations/ObC17.v, regenerated from the source), so every
     schedule of concurrent goroutines is an operation list.  Well-formedness is what
     database/sql guarantees: a connection is used between its open and its single close. *)
-From updog Require Import Prelude DriverSM DriverProofs Dsn DsnProofs Utf8Proofs.
+From updog Require Import Prelude DriverSM DriverProofs Dsn DsnProofs DsnEscape Utf8Proofs.
 
 Theorem C17_no_panic_no_hang valid ops :
   wf_ops valid [] [] ops = true →
@@ -53,6 +53,16 @@ Proof. exact (parse_uint64_decimal n). Qed.
 Theorem C17_cache_size_overflow n : (2 ^ 64 ≤ n)%N → parse_uint64 (decimal n) = None.
 Proof. exact (parse_uint64_overflow n). Qed.
 
+(** Option strings are percent-decoded the way net/url does it (Dsn.unescape inside
+    parse_query): text without '%' and '+' stands for itself, and the decoder undoes
+    url.QueryEscape on every byte string, so any key or value can be written in a name. *)
+Theorem C17_option_text_plain s : Forall (λ c, c ≠ 37 ∧ c ≠ 43)%N s → unescape s = Some s.
+Proof. exact (unescape_plain s). Qed.
+Theorem C17_option_text_escaped s : Forall (λ c, c < 256)%N s → unescape (escape s) = Some s.
+Proof. exact (unescape_escape s). Qed.
+
+Print Assumptions C17_option_text_plain.
+Print Assumptions C17_option_text_escaped.
 Print Assumptions C17_cache_size_accepted.
 Print Assumptions C17_key_determines_options.
 Print Assumptions C17_no_panic_no_hang.
